@@ -582,13 +582,20 @@ fn judge_moves(rep: &Reporter, moves: &str, final_fen: &str, n: &AtomicU64) {
 /// token identity: the decoded list must be exactly the transmitted tokens, whatever squares they
 /// name (no token may be rewritten, merged, split or dropped); these lists are not games, so the
 /// consumer replay is not applied
+thread_local! {
+    /// the move string decoded just before on this thread (recorded in the case so that a replay
+    /// can re-create the history)
+    static PREDECESSOR: std::cell::RefCell<Option<String>> = std::cell::RefCell::new(None);
+}
+
 fn judge_tokens(rep: &Reporter, tokens: &[String], n: &AtomicU64) {
     let moves = tokens.join(" ");
+    let pred: Option<String> = PREDECESSOR.with(|p| p.borrow().clone());
     for (wrap, ty) in [(false, "gameState"), (true, "gameFull")] {
         let doc = if wrap { game_full_base(state_base(&moves)) } else { state_base(&moves) };
         let text = to_text(&doc, false);
         n.fetch_add(1, Ordering::Relaxed);
-        let case = |extra: Value| json!({"kind": "lichess_tokens", "moves": moves, "shape": ty, "detail": extra});
+        let case = |extra: Value| json!({"kind": "lichess_tokens", "moves": moves, "shape": ty, "decoded_just_before_on_this_thread": pred, "detail": extra});
         match guarded(|| serde_json::from_str::<BotGameState>(&text).map_err(|e| e.to_string())) {
             Err(m) => rep.report("panic:moves".to_string(), case(json!({"panic": m}))),
             Ok(Err(e)) => rep.report(format!("decode_error:{}:moves", ty), case(json!({"error": e}))),
@@ -630,6 +637,12 @@ fn main() {
                 judge(&rep, which, &src, "replay", escaped, &n);
             }
             "lichess_tokens" => {
+                if let Some(pred) = case["decoded_just_before_on_this_thread"].as_str() {
+                    let quiet = Reporter::new("C19-prefix");
+                    let ptoks: Vec<String> = pred.split(' ').map(|s| s.to_string()).collect();
+                    judge_tokens(&quiet, &ptoks, &n);
+                    PREDECESSOR.with(|p| *p.borrow_mut() = Some(pred.to_string()));
+                }
                 let toks: Vec<String> = case["moves"].as_str().unwrap_or("").split(' ').map(|s| s.to_string()).collect();
                 judge_tokens(&rep, &toks, &n);
             }
@@ -700,6 +713,54 @@ fn main() {
     let n_tokens = AtomicU64::new(0);
     par_map(&token_lists, |l| judge_tokens(&rep, l, &n_tokens));
 
+    // decoding is a function of the document alone: every ordered pair of textual neighbours — a
+    // list, the same text cut or continued inside a token, continued by a promotion letter, by a
+    // further token — is decoded back to back on one thread, and the second result is judged
+    let n_pairs = AtomicU64::new(0);
+    {
+        let mut groups: Vec<Vec<Vec<String>>> = Vec::new();
+        for n in [1usize, 3, 12, 51, 52, 53, 60, 64, 100, 128, 300, 1000] {
+            for last in ["a7a8", "h2h1", "e2e4"] {
+                let mut base: Vec<String> = (0..n - 1).map(|i| if i % 9 == 4 { format!("{}7{}8n", (b'a' + (i % 8) as u8) as char, (b'a' + ((i + 1) % 8) as u8) as char) } else { format!("{}2{}4", (b'a' + (i % 8) as u8) as char, (b'a' + (i % 3) as u8) as char) }).collect();
+                base.push(last.to_string());
+                let with = |f: &dyn Fn(&mut Vec<String>)| {
+                    let mut v = base.clone();
+                    f(&mut v);
+                    v
+                };
+                let variants = vec![
+                    base.clone(),
+                    with(&|v| { let l = v.len() - 1; v[l].push('q'); }),
+                    with(&|v| { let l = v.len() - 1; v[l].push('q'); v.push("g8f6".into()); }),
+                    with(&|v| v.push("g8f6".into())),
+                    with(&|v| { v.push("g8f6".into()); v.push("b1c3".into()); }),
+                    with(&|v| { let l = v.len() - 1; v[l].pop(); }),
+                    with(&|v| { v.pop(); }),
+                    with(&|v| { let l = v.len() - 1; v[l] = "a7b8".into(); }),
+                ];
+                groups.push(variants);
+            }
+        }
+        par_map(&groups, |variants| {
+            for a in variants.iter() {
+                for b in variants.iter() {
+                    // only lists of well-formed move tokens are judged (the cut-inside-a-token variant
+                    // serves as a predecessor only)
+                    if b.iter().any(|t| t.len() < 4 || t.len() > 5) {
+                        continue;
+                    }
+                    // decode a (its own verdict was given in the sweeps above), then judge b
+                    let quiet = Reporter::new("C19-prefix");
+                    PREDECESSOR.with(|p| *p.borrow_mut() = None);
+                    judge_tokens(&quiet, a, &AtomicU64::new(0));
+                    PREDECESSOR.with(|p| *p.borrow_mut() = Some(a.join(" ")));
+                    judge_tokens(&rep, b, &n_pairs);
+                    PREDECESSOR.with(|p| *p.borrow_mut() = None);
+                }
+            }
+        });
+    }
+
     // informational probe (never a verdict): wire spellings this sandbox cannot confirm offline
     let mut probe = Vec::new();
     for (name, doc) in [
@@ -719,7 +780,8 @@ fn main() {
     }
     let mut cov = Coverage::new();
     cov.states = docs.v.len() as u64 + lists.len() as u64;
-    cov.transitions = n_docs.load(Ordering::Relaxed) + n_moves.load(Ordering::Relaxed) + n_tokens.load(Ordering::Relaxed);
+    cov.transitions = n_docs.load(Ordering::Relaxed) + n_moves.load(Ordering::Relaxed) + n_tokens.load(Ordering::Relaxed) + n_pairs.load(Ordering::Relaxed);
+    cov.set("decodes_judged_right_after_a_textual_neighbour_on_the_same_thread", json!(n_pairs.load(Ordering::Relaxed)));
     cov.set("token_identity_lists", json!(token_lists.len()));
     cov.traces_validated = cov.transitions;
     cov.set("documents", json!(docs.v.len()));
